@@ -358,6 +358,12 @@ class Scan(ast.NodeVisitor):
             d = dotted(target.value)
             if d in GLOBAL_EFFECT_SUBSCRIPT:
                 self.add("global-effect", d + "[…]", line, "store")
+            tv = target.value
+            # `globals()[name] = …`, `vars(mod)[name] = …`, `Cls.__dict__[name] = …`: a module / class namespace written by key
+            if isinstance(tv, ast.Call) and last_name(tv.func) in ("globals", "vars"):
+                self.add("attr-write", (scope or "<module>") + ":" + ast.unparse(tv)[:30] + "[…]", line, "namespace-store")
+            if isinstance(tv, ast.Attribute) and tv.attr == "__dict__" and self._base_object(tv.value, cls, shadow) is not None:
+                self.add("attr-write", ast.unparse(tv)[:40] + "[…]", line, "namespace-store")
             root = target.value
             while isinstance(root, (ast.Subscript, ast.Attribute)):
                 root = root.value
@@ -389,6 +395,10 @@ class Scan(ast.NodeVisitor):
             d = dotted(node.func)
             if d in GLOBAL_EFFECT or (d and d.split(".")[-1] in ("setrecursionlimit",)):
                 self.add("global-effect", d, node.lineno, "call")
+            if isinstance(node.func, ast.Attribute) and node.func.attr in ("update", "setdefault", "__setitem__", "pop") and \
+                    isinstance(node.func.value, ast.Call) and last_name(node.func.value.func) in ("globals", "vars"):
+                self.add("attr-write", (scope or "<module>") + ":" + ast.unparse(node.func.value)[:30] + "." + node.func.attr, node.lineno,
+                         "namespace-store")
             if d == "setattr" and node.args:
                 b = self._base_object(node.args[0], cls, shadow)
                 if b is not None:
@@ -522,6 +532,11 @@ if __name__ == "__main__":
     repo = os.environ.get("FRAME_REPO", "/repo")
     ents, files, bad = inventory(repo)
     if len(sys.argv) > 1 and sys.argv[1] == "--write":
+        old = {}
+        if os.path.exists(EXPECTED_PATH):
+            old = {(e["file"], e["cat"], e["name"]): e.get("modelled") for e in load_expected()}
+        for e in ents:
+            e["modelled"] = old.get((e["file"], e["cat"], e["name"])) or "NOT ACCOUNTED FOR - say which part of the model / footprint covers it"
         json.dump({"_comment": "process-wide mutable state found in the source of the modules C20 covers (harness/c20_inventory.py); "
                                "the `modelled` field says which piece of the Lean model / harness footprint accounts for the entry",
                    "entries": ents}, open(EXPECTED_PATH, "w"), indent=1)
